@@ -71,8 +71,21 @@ def register_cells(ctx: Ctx, rule: str) -> None:
                         problems.append("a counter is reset to zero although it exists")
                 else:
                     problems.append(f"unexpected store in register: {first_line(s)}")
-    ctx.record(rule, "TABLE", fref, f"register: missing cells are created ({{}} / 0) only when absent; every call ends with {cell} += 1", not problems and len(views) == 4,
-               {"paths": len(views)}, "" if not problems and len(views) == 4 else (problems[0] if problems else "unexpected number of paths"))
+    ok_table = not problems and len(views) == 4
+    if not ok_table:
+        # the same table written with dict.setdefault: cells are created only when absent by construction
+        from ..canon import inline_locals
+
+        fi = inline_locals(fn.node)
+        body = [s_ for s_ in fi.body if not (isinstance(s_, ast.Expr) and isinstance(s_.value, ast.Constant))]
+        texts = [ast.unparse(s_) for s_ in body]
+        if len(body) == 3 and isinstance(body[0], ast.Assign) and isinstance(body[0].targets[0], ast.Name):
+            x = body[0].targets[0].id
+            ok_table = texts == [f"{x} = self._registry.setdefault({nd}.bridged_form, {{}})", f"{x}.setdefault({wk}.id, 0)", f"{x}[{wk}.id] += 1"]
+            if ok_table:
+                problems = []
+    ctx.record(rule, "TABLE", fref, f"register: missing cells are created ({{}} / 0) only when absent; every call ends with {cell} += 1", ok_table,
+               {"paths": len(views)}, "" if ok_table else (problems[0] if problems else "unexpected number of paths"))
     # readers
     for name, elem in (("get_workers", None), ("get_counters", None)):
         fr = f"{ER}.{name}"
@@ -105,7 +118,7 @@ def register_cells(ctx: Ctx, rule: str) -> None:
         ctx.record(rule + "r", "SIBLING", fr, what + "; same keys as the writer: node.bridged_form, worker.id", ok and no_exit, {k: defs.get(k) for k in ("node_keys", "worker_keys")},
                    "" if ok and no_exit else f"{name} no longer reads the cells that register writes")
     found = list(attribute_stores(ctx.repo, "_registry", ("cartgraph/", "plugins/", "intertest_setup.py")))
-    owner_rule(ctx, rule + "o", "write to EdgeRegister._registry", found, {f"{ER}.__init__": "empty", fref: "registration"}, 4)
+    owner_rule(ctx, rule + "o", "write to EdgeRegister._registry", found, {f"{ER}.__init__": "empty", fref: "registration"}, 2)
 
 
 def additive_trie(ctx: Ctx, rule: str) -> None:
